@@ -246,16 +246,23 @@ fn main() {
         let mut st = Stats::default();
         let mut repo = Repo::create_fmt(&root, &format!("c{ci}{}", if sha256 { "x" } else { "" }), &linear, &gitx::dates(3, DateMode::Increasing), sha256);
         if sha256 { st.inc("sha256_repositories"); }
+        // nested annotated tags (a tag of a tag, of a tag): the quick tier nests in every fourth chunk (depth 2) and the one after
+        // it (depth 3); the thorough tier repeats every chunk at depths 1, 2, 3
+        let depths: Vec<usize> = if quick { vec![match ci % 4 { 2 => 2, 3 => 3, _ => 1 }] } else { vec![1, 2, 3] };
+        for &depth in &depths {
+        repo.set_nesting(depth);
+        if depth > 1 { st.inc("nested_tag_chunks"); }
         for &mask in chunk {
             let tags: Vec<Tag> = (0..8).filter(|i| mask & (1 << i) != 0).map(|i| Tag { name: names8[i].0.to_string(), target: 1, annotated: names8[i].1 }).collect();
             repo.set_tags(&tags);
             for head in [Head::Detached(1), Head::Branch("main".into())] {
                 repo.set_head(&head);
                 st.inc("states"); st.inc("per_commit_states");
-                let label = format!("tags on one commit {:?} head {:?}{}", tags.iter().map(|t| t.name.as_str()).collect::<Vec<_>>(), head, if sha256 { " [sha256 object format]" } else { "" });
+                let label = format!("tags on one commit {:?} head {:?}{}{}", tags.iter().map(|t| t.name.as_str()).collect::<Vec<_>>(), head, if sha256 { " [sha256 object format]" } else { "" }, if depth > 1 { format!(" [annotated tags nested {depth} deep]") } else { String::new() });
                 let sr = StateRef { shape: &linear, tags: &tags, head: &head, wt: WorkTree::Clean, repo: &repo, label, cdir: None };
                 for input in ["auto", "semver", "pep440"] { judge(&ctx, &sr, input, &mut st); }
             }
+        }
         }
         repo.remove();
         st
@@ -478,7 +485,7 @@ fn main() {
     cov.evaluations = all.get("evaluations") + all.get("render_evaluations");
     cov.traces_validated = all.get("states");
     cov.distinct_nontrivial = all.get("tagged_evaluations");
-    cov.rule = format!("layer A: BFS over commit / branch&checkout / checkout / merge(ff or true merge) from a one-commit repository, commits <= {nc}, extra branches <= {nb}: {} distinct shapes ({} used{}), {} explorer transitions; layer B: every placement of <= {tmax} tags from {:?} on any commits x HEAD at every branch tip and detached at every commit x date modes (increasing; zig-zag and all-equal for merge shapes, thorough also decreasing); layer C: every subset of <= {max_subset} of 8 names {:?} on one commit x 2 HEAD positions x 3 input formats, the chunks of subsets alternately (thorough: both) in SHA-1 and SHA-256 repositories (64-digit object names); layer D: 27 work-tree states (incl. untracked files covered only by the user-level core.excludesFile or by .git/info/exclude) x {} baseline repositories; layer E: 11 branch names (with '/', '.', non-ASCII, equal to a version tag / a non-version tag / a ref-namespace word) x a tag of the same short name (absent, lightweight or annotated, on the middle commit or the tip) x HEAD on that branch / the other branch / detached x 3 input formats; layer F: checkouts whose .git is a file (linked worktree beside and nested inside the main work tree, separate git directory) clean and with an untracked file; layer G: a linear history of 100001 (thorough 300001) commits with the nearest valid tag 9999 .. 100000 commits behind HEAD; layer H: crowded repositories - 12 .. 130 (thorough 1 .. 600) version tags (numeric third numbers, pre-release and v-less spellings, every seventh annotated) plus non-version names on each of five commits of a 37-commit history, as many higher-versioned tags on an unreachable side branch, HEAD at seven positions x 2 input formats. Every state is materialised in real git by fast-import, conformance-checked with `git log --all` / `for-each-ref` / `symbolic-ref` / `status --porcelain=v2`, and judged against R-GIT (nearest validly tagged commit, highest tag under R-SV / C11 order (auto mode: highest under either format that accepts it), distance = |reach(HEAD) minus reach(tag)|, dirty, branch, hashes, times). non-trivial = evaluations that have a valid reachable tag", all_shapes.len(), shapes.len(), if quick { ": all with <= 3 commits plus the 4-commit merge shapes" } else { "" }, shape_transitions, alpha.iter().map(|a| a.0).collect::<Vec<_>>(), names8.iter().map(|a| a.0).collect::<Vec<_>>(), baselines.len());
+    cov.rule = format!("layer A: BFS over commit / branch&checkout / checkout / merge(ff or true merge) from a one-commit repository, commits <= {nc}, extra branches <= {nb}: {} distinct shapes ({} used{}), {} explorer transitions; layer B: every placement of <= {tmax} tags from {:?} on any commits x HEAD at every branch tip and detached at every commit x date modes (increasing; zig-zag and all-equal for merge shapes, thorough also decreasing); layer C: every subset of <= {max_subset} of 8 names {:?} on one commit x 2 HEAD positions x 3 input formats, the chunks of subsets alternately (thorough: both) in SHA-1 and SHA-256 repositories (64-digit object names), annotated tags written as ordinary tag objects or nested 2 and 3 deep (a tag of a tag; quick: every fourth chunk each, thorough: all); layer D: 27 work-tree states (incl. untracked files covered only by the user-level core.excludesFile or by .git/info/exclude) x {} baseline repositories; layer E: 11 branch names (with '/', '.', non-ASCII, equal to a version tag / a non-version tag / a ref-namespace word) x a tag of the same short name (absent, lightweight or annotated, on the middle commit or the tip) x HEAD on that branch / the other branch / detached x 3 input formats; layer F: checkouts whose .git is a file (linked worktree beside and nested inside the main work tree, separate git directory) clean and with an untracked file; layer G: a linear history of 100001 (thorough 300001) commits with the nearest valid tag 9999 .. 100000 commits behind HEAD; layer H: crowded repositories - 12 .. 130 (thorough 1 .. 600) version tags (numeric third numbers, pre-release and v-less spellings, every seventh annotated) plus non-version names on each of five commits of a 37-commit history, as many higher-versioned tags on an unreachable side branch, HEAD at seven positions x 2 input formats. Every state is materialised in real git by fast-import, conformance-checked with `git log --all` / `for-each-ref` / `symbolic-ref` / `status --porcelain=v2`, and judged against R-GIT (nearest validly tagged commit, highest tag under R-SV / C11 order (auto mode: highest under either format that accepts it), distance = |reach(HEAD) minus reach(tag)|, dirty, branch, hashes, times). non-trivial = evaluations that have a valid reachable tag", all_shapes.len(), shapes.len(), if quick { ": all with <= 3 commits plus the 4-commit merge shapes" } else { "" }, shape_transitions, alpha.iter().map(|a| a.0).collect::<Vec<_>>(), names8.iter().map(|a| a.0).collect::<Vec<_>>(), baselines.len());
     cov.set("cumulative_seconds_after_layer", json!(layer_secs.iter().map(|(n, t)| json!({"layer": n, "t": (t * 10.0).round() / 10.0})).collect::<Vec<_>>()));
     cov.exhaustive = !was_capped;
     cov.samples = vec![json!({"ops":["branch b1","commit","checkout main","commit","merge b1"],"dates":"decreasing","tags":["v2.0.0@1","v1.0.0@0"],"head":"main"}), json!({"one_commit_tags":["v1.0.0","1.1.0rc1","1.1.0.post1"],"input_format":"auto"}), json!({"worktree":"IgnoredOnly","head":"detached"})];
@@ -486,6 +493,6 @@ fn main() {
     cov.set("wall_cap_hit", was_capped);
     cov.set("explorer_cross_check", json!({"engine":"stateright 0.31 spawn_bfs","unique_states":sr_states,"own_bfs_states":all_shapes.len()}));
     cov.set("process_conformance_cases", s_p.get("process_conformance_cases"));
-    cov.assumptions = vec!["R-GIT (harness/src/gitx.rs + the oracle in c02.rs); which of several equal-precedence tags / which member of the nearest-tag antichain is reported is left open".into(), "octopus merges, shallow clones, submodules and nested (tag-of-tag) annotated tags are out of scope".into(), "tag validity judged by the reference recognisers R-SV / R-PEP".into()];
+    cov.assumptions = vec!["R-GIT (harness/src/gitx.rs + the oracle in c02.rs); which of several equal-precedence tags / which member of the nearest-tag antichain is reported is left open".into(), "shallow clones are explored by C01 / C13 only".into(), "tag validity judged by the reference recognisers R-SV / R-PEP".into()];
     finish(&ctx, cov);
 }
